@@ -286,6 +286,18 @@ def build(run):
             ("sign(real f)", lambda: sign(real(f)) * u * conj(v) * dx), ("derivative of sqrt(|f|+1)", lambda: derivative(sqrt(abs(f) + 1) * conj(v) * dx, f, u)),
             ("derivative of |grad f|^2 |f|", lambda: derivative(inner(grad(f), grad(f)) * abs(f) * conj(v) * dx, f, u)),
         ]
+        # forms WITHOUT any Coefficient: constants, coordinates and complex literals can be compared too
+        c0 = ufl.Constant(tri)
+        xx = ufl.SpatialCoordinate(tri)
+        from ufl import conditional, gt, lt, max_value, min_value
+        forms += [
+            ("no coefficient: conditional(lt(Constant, 0.5))", lambda: conditional(lt(c0, 0.5), 1.0, 2.0) * u * conj(v) * dx),
+            ("no coefficient: max_value(1j*x0, 0.5)", lambda: max_value(1j * xx[0], 0.5) * u * conj(v) * dx), ("no coefficient: min_value(Constant, x1)", lambda: min_value(c0, xx[1]) * u * conj(v) * dx),
+            ("no coefficient: conditional(gt(x0 + 2j, 0))", lambda: conditional(gt(xx[0] + 2j, 0), 1.0, 2.0) * u * conj(v) * dx),
+            ("no coefficient: conditional(lt(x0, 0.5)) (real)", lambda: conditional(lt(xx[0], 0.5), 1.0, 2.0) * u * conj(v) * dx),
+            ("no coefficient: max_value(x0, x1) (real)", lambda: max_value(xx[0], xx[1]) * u * conj(v) * dx), ("no coefficient: min_value(abs(Constant), 1)", lambda: min_value(abs(c0), 1) * u * conj(v) * dx),
+            ("no coefficient: comparison of the trial function", lambda: conditional(lt(u, 0.5), 1.0, 2.0) * conj(v) * dx),
+        ]
 
         def mk(symbolic, valuation):
             w = World(symbolic=symbolic, complex_mode=True, valuation=valuation)
